@@ -444,6 +444,7 @@ def rule_partial(model):
                     'key')
     mi_ = model.inlined_view()
     _cg(mi_)
+    plain_funcs = {f.where: f for f in compile_funcs(model)}
     for fi in compile_funcs(mi_):
         dicts = _param_dicts(mi_, fi)
         if not dicts:
@@ -451,6 +452,16 @@ def rule_partial(model):
         dom = KeyDomain(mi_, fi, dicts)
         it = Interp(dom, max_states=60000)
         it.run(fi.node, KS())
+        if it.overflow and fi.where in plain_funcs:
+            # the view with constant loops unrolled has too many paths
+            # here: the function as written (loops kept) is judged instead
+            fi = plain_funcs[fi.where]
+            dicts = _param_dicts(model, fi)
+            if not dicts:
+                continue
+            dom = KeyDomain(model, fi, dicts)
+            it = Interp(dom, max_states=60000)
+            it.run(fi.node, KS())
         if it.overflow:
             raise AnalysisError(f'C06.R3b: state budget in {fi.where}')
         for node, ok in dom.sites.values():
